@@ -159,7 +159,7 @@ N("C15", "euler-inline", G + "polyhedron.py", "ConvexPolyhedron.__init__", "    
 F("C19", "stale-sig-in-point-hash", G + "point.py", None,
   "from ..utils.constant import get_sig_figures, get_eps", "from ..utils.constant import get_sig_figures, get_eps, SIG_FIGURES")
 CAT["C19"].pop()  # (import alone is harmless; the real mutant follows)
-F("C19", "stale-sig-in-line-hash", G + "line.py", "Line.__hash__", "round(self.dv[0], get_sig_figures())", "round(self.dv[0], SIG_FIGURES)", rule="R19.1")
+F("C19", "stale-sig-in-plane-hash", G + "plane.py", "Plane.__hash__", "round(offset, get_sig_figures())", "round(offset, SIG_FIGURES)", rule="R19.1")
 F("C19", "stale-eps-in-plane-contains", G + "plane.py", "Plane.__contains__", "< get_eps()", "< FLOAT_EPS", rule="R19.1")
 F("C19", "module-level-copy", U + "solver.py", None, "def null(f):\n    return abs(f) < get_eps()",
   "EPS = get_eps()\n\ndef null(f):\n    return abs(f) < EPS", rule="R19.1")
@@ -178,8 +178,8 @@ F("C19", "setter-missing-global-decl", U + "constant.py", "set_eps", "global FLO
 F("C19", "default-drift", U + "constant.py", "set_eps", "def set_eps(eps=1e-10):", "def set_eps(eps=1e-09):", rule="R19.2")
 N("C19", "getter-into-local", G + "point.py", "Point.__eq__", "    if isinstance(other, Point):\n        return abs(self.x - other.x) < get_eps() and",
   "    if isinstance(other, Point):\n        eps = get_eps()\n        return abs(self.x - other.x) < eps and")
-N("C19", "precision-into-local", G + "line.py", "Line.__hash__",
-  "    return hash(('Line', round(self.dv[0], get_sig_figures()),", "    n = get_sig_figures()\n    return hash(('Line', round(self.dv[0], n),")
+N("C19", "precision-into-local", G + "plane.py", "Plane.oriented_hash",
+  "    return hash(('Plane', self.n, round(self.n * self.p.pv(), get_sig_figures())))", "    digits = get_sig_figures()\n    return hash(('Plane', self.n, round(self.n * self.p.pv(), digits)))")
 N("C19", "setter-equivalent-formula", U + "constant.py", "set_eps", "SIG_FIGURES = round(log10(1 / eps))", "SIG_FIGURES = round(-log10(eps))")
 N("C19", "setter-from-param", U + "constant.py", "set_sig_figures", "FLOAT_EPS = 1 / 10 ** SIG_FIGURES", "FLOAT_EPS = 10 ** (-sig_figures)")
 N("C19", "module-attribute-read-is-live", U + "solver.py", None, "from .constant import get_eps\n\ndef shape(m):",
